@@ -204,7 +204,14 @@ func newBufferedSectionWriter(w io.WriterAt, begPos, maxBytes int64,
 			if ok {
 				buf, pos = req.buf, req.pos
 				if len(buf) > 0 {
-					nBytes, err := w.WriteAt(buf, pos)
+					// Assign to the err that is reported back through
+					// resCh (not a new, shadowing variable), and treat
+					// a short write as the error it is.
+					var nBytes int
+					nBytes, err = w.WriteAt(buf, pos)
+					if err == nil && nBytes != len(buf) {
+						err = io.ErrShortWrite
+					}
 					if err == nil && s != nil {
 						s.reportBytesWritten(uint64(nBytes))
 					}
@@ -276,6 +283,13 @@ func (b *bufferedSectionWriter) Flush() error {
 
 func (b *bufferedSectionWriter) Stop() error {
 	if b.stopCh != nil {
+		if b.err == nil {
+			// Collect the result of the last asynchronous write,
+			// which no later Flush() will look at.
+			if prevWrite, ok := <-b.resCh; ok {
+				b.err = prevWrite.err
+			}
+		}
 		close(b.stopCh)
 		close(b.reqCh)
 		<-b.doneCh
